@@ -58,10 +58,55 @@ pub fn run(tier: Tier) -> Report {
           let r = match o {
             Err(e) => Err(format!("cannot run mc-uring: {}", e)),
             Ok(o) => {
+              // mc-uring prints one JSON line per event: "begin" before each cell, "workload_done"
+              // with that workload's findings, "summary" at the end
               let text = String::from_utf8_lossy(&o.stdout).to_string();
-              match text.lines().rev().find(|l| l.starts_with('{')).map(serde_json::from_str::<Value>) {
-                Some(Ok(v)) => Ok(v),
-                _ => Err(format!("mc-uring produced no result (exit {:?}, {}); stderr kept in {}; stdout tail: {}", o.status.code(), o.status, errp.display(), text.chars().rev().take(300).collect::<String>().chars().rev().collect::<String>())),
+              let mut cells = 0u64;
+              let mut workloads = 0u64;
+              let mut violations: Vec<Value> = vec![];
+              let mut samples: Vec<Value> = vec![];
+              let mut last_begin: Option<(String, String)> = None;
+              let mut summary: Option<Value> = None;
+              for l in text.lines().filter(|l| l.starts_with('{')) {
+                let Ok(v) = serde_json::from_str::<Value>(l) else { continue };
+                match v["event"].as_str() {
+                  Some("begin") => last_begin = Some((v["workload"].as_str().unwrap_or("").to_string(), v["variant"].as_str().unwrap_or("").to_string())),
+                  Some("workload_done") => {
+                    cells += v["cells"].as_u64().unwrap_or(0);
+                    workloads += 1;
+                    violations.extend(v["violations"].as_array().cloned().unwrap_or_default());
+                    samples.extend(v["samples"].as_array().cloned().unwrap_or_default());
+                  }
+                  Some("summary") => summary = Some(v),
+                  _ => {
+                    if v.get("unavailable").is_some() {
+                      summary = Some(v);
+                    }
+                  }
+                }
+              }
+              let mut out = json!({"cells": cells, "workloads": workloads, "violations": violations, "samples": samples});
+              match summary {
+                Some(sm) if sm.get("unavailable").is_some() => Ok(sm),
+                Some(sm) => {
+                  out["unstable_cells_without_verdict"] = sm["unstable_cells_without_verdict"].clone();
+                  Ok(out)
+                }
+                None => {
+                  // the process died: a double close of a descriptor aborts it (std's IO-safety check,
+                  // active because the harness profile keeps debug assertions on) - that is a verdict
+                  let err_text = std::fs::read_to_string(&errp).unwrap_or_default();
+                  if err_text.contains("IO Safety violation") && err_text.contains("already closed") {
+                    let (wl, var) = last_begin.unwrap_or_default();
+                    // (the close happens on the worker thread, possibly for a connection of an earlier
+                    // cell: the cell that was running is reported in the detail, not in the class)
+                    out["violations"].as_array_mut().unwrap().push(json!({"clause": "file-descriptor-closed-twice", "class": "io_uring-worker", "detail": format!("pool [{}]: the process was aborted by std's IO-safety check ('owned file descriptor already closed') while running workload {} with {}; workloads after this one were not run in this pool", name, wl, var), "witness": {"workload": wl, "variant": var, "pool": name}}));
+                    out["incomplete"] = json!(format!("aborted inside {} [{}]", wl, var));
+                    Ok(out)
+                  } else {
+                    Err(format!("mc-uring produced no summary (exit {:?}, {}); stderr kept in {}; stdout tail: {}", o.status.code(), o.status, errp.display(), text.chars().rev().take(300).collect::<String>().chars().rev().collect::<String>()))
+                  }
+                }
               }
             }
           };
@@ -85,6 +130,10 @@ pub fn run(tier: Tier) -> Report {
           sub.exhaustive = false;
           sub.caps_hit.push("io_uring unavailable in this environment".into());
           continue;
+        }
+        if let Some(inc) = v["incomplete"].as_str() {
+          sub.exhaustive = false;
+          sub.caps_hit.push(format!("pool [{}] {}", name, inc));
         }
         let cells = v["cells"].as_u64().unwrap_or(0);
         sub.evaluations += cells;
@@ -125,8 +174,21 @@ pub fn replay(_sub: &str, w: &Value) -> Result<String, String> {
   let wl = w["workload"].as_str().ok_or("no workload")?;
   let o = Command::new(uring_bin()).args([nums[0].clone(), nums[1].clone(), nums[2].clone(), nums[3].clone(), "thorough".into(), wl.to_string()]).stderr(std::process::Stdio::null()).output().map_err(|e| e.to_string())?;
   let text = String::from_utf8_lossy(&o.stdout).to_string();
-  let v: Value = text.lines().rev().find(|l| l.starts_with('{')).and_then(|l| serde_json::from_str(l).ok()).ok_or("no result")?;
-  let vs = v["violations"].as_array().cloned().unwrap_or_default();
+  let mut vs: Vec<Value> = vec![];
+  let mut saw_summary = false;
+  for l in text.lines().filter(|l| l.starts_with('{')) {
+    if let Ok(v) = serde_json::from_str::<Value>(l) {
+      if v["event"] == "workload_done" {
+        vs.extend(v["violations"].as_array().cloned().unwrap_or_default());
+      }
+      if v["event"] == "summary" {
+        saw_summary = true;
+      }
+    }
+  }
+  if !saw_summary {
+    return Err(format!("mc-uring did not finish ({}), violations so far: {}", o.status, Value::Array(vs)));
+  }
   if vs.is_empty() {
     Ok("observations agree".into())
   } else {
